@@ -79,6 +79,12 @@ def poly(e, subst=None):
         if isinstance(e.op, (ast.FloorDiv, ast.Mod, ast.Div, ast.Pow, ast.LShift, ast.RShift)):
             sym = {ast.FloorDiv: "//", ast.Mod: "%", ast.Div: "/", ast.Pow: "**", ast.LShift: "<<", ast.RShift: ">>"}[type(e.op)]
             return {(f"({show(poly(e.left, subst))}){sym}({show(poly(e.right, subst))})",): 1}
+    if isinstance(e, ast.Call) and isinstance(e.func, ast.Name) and e.func.id == "len" and len(e.args) == 1 and isinstance(e.args[0], ast.BinOp) and isinstance(e.args[0].op, ast.Mult):
+        # len(" " * n) == n (for a one-character literal)
+        l, r = e.args[0].left, e.args[0].right
+        for s_, n_ in ((l, r), (r, l)):
+            if isinstance(s_, ast.Constant) and isinstance(s_.value, str) and len(s_.value) == 1:
+                return poly(n_, subst)
     if isinstance(e, ast.Call):
         args = ",".join(show(poly(a, subst)) if not isinstance(a, ast.Starred) else "*" + norm(a.value) for a in e.args)
         return {(f"{norm(e.func)}({args})",): 1}
